@@ -75,7 +75,9 @@ Step ==
             IN /\ expect' = ex2 /\ UNCHANGED <<status, order, nonlifo, m>>
                /\ mrecv' = [p \in Probes |-> mrecv[p] + IF Hears(m, p) THEN Len(EventsOf(p, op[2], op[3])) ELSE 0]
                /\ fails' = AddAll(fails, Clauses(status, ex2) \cup
-                                         (IF S.outcome = "ok" /\ S.ret = RetOf(op[2], op[3]) THEN {} ELSE {<<"Return", op[2]>>}))
+                                         (IF ListenerRaises(Active(status), op[2], op[3])
+                                          THEN (IF S.outcome = "KeyError" THEN {} ELSE {<<"ListenerError", op[2]>>})
+                                          ELSE IF S.outcome = "ok" /\ S.ret = RetOf(op[2], op[3]) THEN {} ELSE {<<"Return", op[2]>>}))
 
 Spec == Init /\ [][Step]_vars
 Progress == TLCSet(tid, <<l - 1, fails>>)
